@@ -41,4 +41,24 @@ def unpackDescriptor : R Nat := fun bs => do
   let (y, bs) ← readUInt 8 bs
   pure (f * 100000 + x * 1000 + y, bs)
 
+/-- the whole list of unexpanded descriptors -/
+def packDescriptors (w : Bits) : List Nat → CM Bits
+  | [] => .ok w
+  | id :: ids => match packDescriptor w id with
+    | .error e => .error e
+    | .ok w' => packDescriptors w' ids
+
+def unpackDescriptors : Nat → R (List Nat)
+  | 0 => fun bs => .ok ([], bs)
+  | n + 1 => fun bs => match unpackDescriptor bs with
+    | .error e => .error e
+    | .ok (id, r) => match unpackDescriptors n r with
+      | .error e => .error e
+      | .ok (ids, r') => .ok (id :: ids, r')
+
+/-- a descriptor id that FM-94 can express: F on 2 bits, X on 6, Y on 8 -/
+def LegalFXY (id : Nat) : Prop := fOf id < 4 ∧ xOf id < 64 ∧ yOf id < 256
+
+instance (id : Nat) : Decidable (LegalFXY id) := by unfold LegalFXY; infer_instance
+
 end Bufr
